@@ -793,6 +793,8 @@ class Interp:
             return self.call_method(f.recv, f.name, args, kwargs, site, env)
         if isinstance(f, Ext):
             return self.call_ext(f.dotted, args, kwargs, site, env)
+        if isinstance(f, Sym) and f.origin and f.origin[0] == "attr" and len(f.origin) == 3:
+            return self.call_method(f.origin[1], f.origin[2], args, kwargs, site, env)
         if isinstance(f, Sym):
             self.effect("call", f.tag, args, kwargs, site)
             return Sym(f"{f.tag}()@{self.siteid(site)}", origin=("call", f.tag, args, kwargs))
